@@ -72,7 +72,13 @@ def scenario(L, side, averaged, where, dist, stop, kind, mode, fast, emb, tp=Non
 
     def rows(extra):
         r = [[S.TS0 + i * 60000, E, E, E, E, 1.0] for i in range(n0)]
-        if averaged:       # a dip/spike that fills the second leg three ticks away, then back to E
+        if averaged and tp == 'same-minute':
+            # a quiet phase first (the engine looks at the liquidation price of the un-averaged position), then ONE minute that
+            # fills the second leg three ticks away and afterwards a partial take-profit on the other side: qty 1 -> 2 -> 1
+            r += [[S.TS0 + (len(r) + i) * 60000, E, E, E, E, 1.0] for i in range(n0)]
+            p2, up = E - 3 * sgn * tick, E + 3 * sgn * tick
+            r.append([S.TS0 + len(r) * 60000, E, E + sgn * 0.5 * tick, max(p2, up), min(p2, up), 1.0])
+        elif averaged:       # a dip/spike that fills the second leg three ticks away, then back to E
             p2 = E - 3 * sgn * tick
             r.append([S.TS0 + len(r) * 60000, E, E, max(E, p2), min(E, p2), 1.0])
         r += [[S.TS0 + (len(r) + i) * 60000] + list(x) + [1.0] for i, x in enumerate(extra)]
@@ -89,6 +95,10 @@ def scenario(L, side, averaged, where, dist, stop, kind, mode, fast, emb, tp=Non
     if not liqs:
         return case, r, None
     liq, bk = liqs[-1][3], liqs[-1][4]
+    cal = [(e[5], e[3], e[4]) for e in liqs]        # (entry price, liquidation price, bankruptcy price) as read in the calibration run
+    # the probe run never reads position.liquidation_price itself (a read could refresh state the engine relies on): the oracle
+    # follows the entry price through the fills and looks the two prices up in the calibration readings
+    spec = dict(spec, log_liq=False)
     if kind != 'futures' or mode != 'isolated':
         # cross / spot have no liquidation price: aim at where the isolated one would be
         liq = E * (1 - sgn * (1.0 / L - 0.004)) if L > 1 else E * (1 - sgn * 0.5)
@@ -100,7 +110,7 @@ def scenario(L, side, averaged, where, dist, stop, kind, mode, fast, emb, tp=Non
     if where == 'gap-over':
         o = target
         extra.append((o, o, o, o))                       # whole minute beyond the liquidation price: only the normalised open reaches it
-    elif tp:
+    elif tp == 'partial':
         # the probe minute also reaches a partial take-profit on the profit side (closing one tick into profit): a resting
         # order fills inside the liquidation minute without closing the position
         up = E + sgn * 3 * tick
@@ -108,7 +118,9 @@ def scenario(L, side, averaged, where, dist, stop, kind, mode, fast, emb, tp=Non
     else:
         extra.append((E, E, max(E, target), min(E, target)))
     extra += [(extra[-1][1],) * 4] * 2
-    if tp:
+    if tp == 'same-minute':
+        spec = dict(spec, on_increased={'tp': [[1, 2 + 1.5]]})
+    elif tp:
         spec = dict(spec, on_open={'tp': [[0.5, 2]]})
         if averaged:
             spec['on_increased'] = {'tp': [[1, 2 + 1.5]]}
@@ -121,10 +133,18 @@ def scenario(L, side, averaged, where, dist, stop, kind, mode, fast, emb, tp=Non
             spec['on_increased'] = dict(spec.get('on_increased') or {}, sl=[[2, abs(E - d) / tick]])
     case = {'cfg': cfg, 'routes': [{'symbol': 'BTC-USDT', 'timeframe': tf, 'spec': spec}], 'candles': {'BTC-USDT': rows(extra)}, 'fast': fast, 'observe': 0}
     r = S.run_session(case)
-    return case, r, (liq, bk)
+    return case, r, (liq, bk, cal)
 
 
-def oracle(case, r, isolated):
+def _lookup(cal, entry):
+    for e, l, b in cal:
+        if abs(e - entry) <= 1e-12 * abs(entry):
+            return l, b
+    e, l, b = cal[0]
+    return entry * (l / e), entry * (b / e)
+
+
+def oracle(case, r, isolated, cal=None):
     """returns (problems, stats)"""
     probs = []
     trace = r['trace']
@@ -135,6 +155,7 @@ def oracle(case, r, isolated):
     sim = 'fast' if case['fast'] else 'normal'
     # walk the trace: position from fills, liquidation price from 'liq' events
     pos = 0.0
+    avg = None
     entry_val = 0.0
     liq = bk = None
     wallet_before = None
@@ -148,7 +169,7 @@ def oracle(case, r, isolated):
     ends = {last: k for k, (first, last, mlo, mhi) in enumerate(ph)}
     liq_orders = set()
     for idx, ev in enumerate(trace):
-        if ev[0] == 'liq':
+        if ev[0] == 'liq' and not cal:
             liq, bk = ev[3], ev[4]
         if ev[0] == 'submit' and ev[3] == 'MARKET' and ev[7] and ev[9] is not None and abs(ev[6] - ev[9]) > 1e-9 * abs(ev[9]) and abs(1 - ev[6] / ev[9]) > 0.00015:
             liq_orders.add(ev[1])      # reduce-only MARKET order priced away from the current price: a force-close
@@ -172,9 +193,13 @@ def oracle(case, r, isolated):
                         probs.append(('liquidation-fill-price', {'sim': sim}, 'force-close filled at %r, bankruptcy price is %r (liquidation price %r)' % (o['price'], bk, liq)))
                     if abs(o['qty']) != abs(pos):
                         probs.append(('liquidation-quantity', {'sim': sim}, 'force-close of %r while the position is %r' % (o['qty'], pos)))
+            if pos == 0 or (pos > 0) == (q > 0):      # opening / increasing: the entry price becomes the average of what is held
+                avg = o['price'] if pos == 0 else (abs(q) * o['price'] + abs(pos) * avg) / (abs(q) + abs(pos))
             pos += q
             if abs(pos) < 1e-12:
                 pos = 0.0
+            if cal:
+                liq, bk = _lookup(cal, avg) if pos != 0 else (None, None)
         if idx in ends and isolated and pos != 0 and liq is not None:
             k = ends[idx]
             lo = min(rng[m][0] for m in range(ph[k][2], min(ph[k][3], len(rng) - 1) + 1))
@@ -219,7 +244,7 @@ def _run(args):
     if lb is None:
         out['viols'].append(Violation('harness-no-position', {}, ident, 'calibration run opened no position').to_json())
         return out
-    probs, stats = oracle(case, r, kind == 'futures' and mode == 'isolated')
+    probs, stats = oracle(case, r, kind == 'futures' and mode == 'isolated', lb[2])
     out['stats'] = stats
     out['class'] = 'liquidated' if stats['force_closes'] else 'survived'
     for clause, sig, msg in probs:
@@ -240,6 +265,9 @@ def cases(ctx):
                                 yield (L, side, averaged, where, dist, stop, 'futures', 'isolated', fast, emb)
                                 if where != 'gap-over' and stop != ('before', 2) and L > 1:
                                     yield (L, side, averaged, where, dist, stop, 'futures', 'isolated', fast, emb, 'partial')
+                                if averaged and where != 'gap-over' and stop is None and L > 1:
+                                    # increase and partial exit inside one minute, then the approach
+                                    yield (L, side, averaged, where, dist, stop, 'futures', 'isolated', fast, emb, 'same-minute')
     if not ctx.quick:
         # every leverage 1..125 at the boundary itself (touch / one tick short), both sides, normal simulator
         for L in range(1, 126):
